@@ -521,7 +521,7 @@ func attribute(s stmt, mech string, checked []chk, k [2]string) string {
 	}
 	for i := 0; i < len(q); i++ {
 		if q[i] >= 0x80 {
-			return "reader-spelling"
+			return "reader-nonascii-blank"
 		}
 	}
 	switch {
